@@ -1,9 +1,349 @@
-import DiscretModel.Lemmas.Room
-import DiscretModel.Model.LocalWrite
-/- C01 — placeholder while the pipeline is brought up; replaced by the real statements. -/
+import DiscretModel.Lemmas.LocalWrite
+import DiscretModel.Lemmas.RoomBuild
+/-
+C01 — Local writes are applied only with the room's rights at that time.
+
+Models: `Model/LocalWrite.lean` (plan of the mutation tree, right checks, write, deletions) and
+`Model/RoomBuild.lean` (`validate`: room mutations), over the room decision functions of `Model/Room.lean`.
+The compiled model is run against the real functions on every check (`checks/C01.py`, harness `mode=fn`).
+
+All statements hold for every list of room definitions (any history), every database content, caller, date
+and operation. "The right at that time" is `Room.can … now …`; by past stability (`Room.past_stability`)
+entries dated after `now` do not change it.
+-/
 namespace Discret.LocalWrite
 open Discret.Room
 
-theorem C01_placeholder (db : Db) : db = db := rfl
+/-! ### the intended behaviour (`Defects.none`) -/
+
+/-- **C01 (rows).** After an accepted mutation, every row that was not in the database before — created,
+    changed, moved or re-signed — is the new row of a change that passed the right check: the caller holds,
+    at the date of the operation, the own-rows right if it creates the row or is the author of the stored
+    row, the all-rows right otherwise, in the room the row is in afterwards and in the room it was in before
+    (`Authorised`). The row is signed by the caller. -/
+theorem C01_rows {rooms : List Room} {db db' : Db} {caller : Key} {now : Int} {m : Mut}
+    (h : mutate Defects.none rooms db caller now m = .ok db') :
+    ∀ r ∈ db'.rows, r ∉ db.rows →
+      ∃ c, Authorised rooms caller now c ∧ c.entity = r.entity ∧ c.roomId = r.room ∧ r.author = caller ∧
+        ∀ o, c.old = some o → db.getRow r.id r.entity = some o := by
+  unfold mutate at h
+  split at h
+  · cases h
+  · rename_i top subs hp
+    split at h
+    · cases h
+    · rename_i l hv
+      cases h
+      intro r hr hnot
+      obtain ⟨hmap, hauth⟩ := validateAll_authorised (Or.inl rfl) (Or.inl rfl) hv
+      rcases applyAll_rows hr with h1 | ⟨ct, hct, n, hn, rfl⟩
+      · exact absurd h1 hnot
+      · have hcin : ct.1 ∈ top :: subs := by rw [← hmap]; exact List.mem_map.mpr ⟨ct, hct, rfl⟩
+        have hpl := plan_planned hp ct.1 hcin
+        have hne : ct.1.node ≠ none := by rw [hn]; exact fun e => by cases e
+        refine ⟨ct.1, hauth ct hct hne, ?_, ?_, rfl, ?_⟩
+        · exact (hpl.node n hn).1.symm
+        · exact (hpl.node n hn).2.symm
+        · intro o ho
+          have := hpl.old o ho n hn
+          simpa [(hpl.node n hn).1] using this
+
+/-- **C01 (references).** Every reference present after an accepted mutation and not before is signed by the
+    caller and stored at a row whose change passed the right check. -/
+theorem C01_references {rooms : List Room} {db db' : Db} {caller : Key} {now : Int} {m : Mut}
+    (h : mutate Defects.none rooms db caller now m = .ok db') :
+    ∀ e ∈ db'.edges, e ∉ db.edges →
+      e.author = caller ∧ ∃ c n, Authorised rooms caller now c ∧ c.node = some n ∧ e.src = n.id := by
+  unfold mutate at h
+  split at h
+  · cases h
+  · rename_i top subs hp
+    split at h
+    · cases h
+    · rename_i l hv
+      cases h
+      intro e he hnot
+      obtain ⟨hmap, hauth⟩ := validateAll_authorised (Or.inl rfl) (Or.inl rfl) hv
+      rcases applyAll_edges he with h1 | ⟨ct, hct, x, hx, rfl⟩
+      · exact absurd h1 hnot
+      · have hcin : ct.1 ∈ top :: subs := by rw [← hmap]; exact List.mem_map.mpr ⟨ct, hct, rfl⟩
+        have hpl := plan_planned hp ct.1 hcin
+        refine ⟨rfl, ?_⟩
+        cases hn : ct.1.node with
+        | none =>
+          have := (hpl.quiet hn).2
+          rw [this] at hx; cases hx
+        | some n =>
+          have hne : ct.1.node ≠ none := by rw [hn]; exact fun e => by cases e
+          exact ⟨ct.1, n, hauth ct hct hne, hn, (hpl.src n hn).1 x hx⟩
+
+/-- **C01 (node deletion).** An accepted deletion of a stored row needed the own-rows right (own row) or the
+    all-rows right (foreign row) in the row's room at that date, and the right to edit every row that
+    referenced the deleted one. -/
+theorem C01_delete_node {rooms : List Room} {db db' : Db} {caller : Key} {now : Int} {handle : Nat} {entity : Ent}
+    {row : Row} (hrow : db.getRow handle entity = some row)
+    (h : deleteNode Defects.none rooms db caller now handle entity = .ok db') :
+    (∀ rid, row.room = some rid →
+      Allowed rooms caller now entity (if row.author = caller then .mutateSelf else .mutateAll) rid) ∧
+    (∀ e ∈ db.edges, e.dest = handle → e.src ≠ handle → mayTouch rooms db caller now e.src = true) := by
+  unfold deleteNode at h
+  rw [hrow] at h
+  simp only [Defects.none, Bool.not_false, Bool.true_and] at h
+  split at h
+  · cases h
+  · rename_i hinc
+    have hallb : (db.edges.filter fun e => e.dest = handle && e.src ≠ handle).all
+        (fun e => mayTouch rooms db caller now e.src) = true := by
+      cases hb : (db.edges.filter fun e => e.dest = handle && e.src ≠ handle).all
+          (fun e => mayTouch rooms db caller now e.src) with
+      | true => rfl
+      | false => rw [hb] at hinc; simp at hinc
+    have hall : ∀ e ∈ db.edges, e.dest = handle → e.src ≠ handle → mayTouch rooms db caller now e.src = true := by
+      intro e he hd hs
+      have hin : e ∈ db.edges.filter fun e => e.dest = handle && e.src ≠ handle := by
+        simp [List.mem_filter, he, hd, hs]
+      exact List.all_eq_true.mp hallb e hin
+    refine ⟨?_, hall⟩
+    intro rid hr
+    rw [hr] at h
+    simp only at h
+    cases hroom : getRoom rooms rid with
+    | none => rw [hroom] at h; cases h
+    | some room =>
+      rw [hroom] at h
+      simp only at h
+      by_cases hcan : room.can caller entity now (if row.author = caller then .mutateSelf else .mutateAll) = true
+      · exact ⟨room, hroom, hcan⟩
+      · simp [hcan] at h
+
+/-- **C01 (reference deletion).** An accepted deletion of an existing reference needed, in the room of its
+    source row, the own-rows right when both the reference and the row are the caller's, the all-rows right
+    otherwise; the deletion of a reference that does not exist changes nothing. -/
+theorem C01_delete_ref {rooms : List Room} {db db' : Db} {caller : Key} {now : Int} {handle : Nat} {entity : Ent}
+    {label dest : Nat} {row : Row} (hrow : db.getRow handle entity = some row)
+    (h : deleteRef Defects.none rooms db caller now handle entity label dest = .ok db') :
+    (db.edges.find? (fun e => e.src = handle && e.label = label && e.dest = dest) = none → db' = db) ∧
+    (∀ edge rid, db.edges.find? (fun e => e.src = handle && e.label = label && e.dest = dest) = some edge →
+      row.room = some rid →
+      Allowed rooms caller now entity
+        (if edge.author = caller ∧ row.author = caller then .mutateSelf else .mutateAll) rid) := by
+  unfold deleteRef at h
+  rw [hrow] at h
+  simp only [Defects.none, Bool.false_eq_true, if_false] at h
+  constructor
+  · intro hnone; rw [hnone] at h; cases h; rfl
+  · intro edge rid hedge hr
+    rw [hedge, hr] at h
+    simp only at h
+    cases hroom : getRoom rooms rid with
+    | none => rw [hroom] at h; cases h
+    | some room =>
+      rw [hroom] at h
+      simp only at h
+      by_cases hcan : room.can caller entity now
+          (if edge.author = caller ∧ row.author = caller then .mutateSelf else .mutateAll) = true
+      · exact ⟨room, hroom, hcan⟩
+      · simp [hcan] at h
+
+/-- one API call: a refused operation leaves the database unchanged -/
+def step (df : Defects) (rooms : List Room) (db : Db) (caller : Key) (now : Int) (m : Mut) : Db × Bool :=
+  match mutate df rooms db caller now m with
+  | .ok db' => (db', true)
+  | .error _ => (db, false)
+
+/-- **C01 (refusal).** A refused mutation leaves the database unchanged — with or without the defects: every
+    check precedes every write. -/
+theorem C01_refused_unchanged (df : Defects) (rooms : List Room) (db : Db) (caller : Key) (now : Int) (m : Mut)
+    (h : (step df rooms db caller now m).2 = false) : (step df rooms db caller now m).1 = db := by
+  unfold step at h ⊢
+  split
+  · rename_i db' hm; rw [hm] at h; cases h
+  · rfl
+
+/-! ### room mutations (`validate_room_mutation`): a definition is changed only by an admin -/
+
+open Discret.RoomBuild in
+/-- **C01 (room mutation, existing room).** The caller of an accepted mutation of an existing room is admin
+    of that room at the date of the mutation, before the mutation is applied. (The code is stricter than the
+    property, which would also let a group's user admin add users.) -/
+theorem C01_room_mutation_existing {mem : Option Room} {caller : Key} {m : MutSpec} {room' : Room}
+    (hnew : m.isNew = false) (h : validate mem caller m = .ok room') :
+    ∃ r, mem = some r ∧ r.isAdmin caller m.date = true := by
+  unfold validate at h
+  simp only [hnew, Bool.false_eq_true, if_false] at h
+  cases mem with
+  | none => simp at h
+  | some r =>
+    refine ⟨r, rfl, ?_⟩
+    cases hb : r.isAdmin caller m.date with
+    | true => rfl
+    | false => simp [hb] at h
+
+open Discret.RoomBuild in
+/-- **C01 (room mutation, admins).** Whenever an accepted room mutation adds an admin entry, the caller is
+    admin of the room as it stands after the mutation (a creator must list itself). -/
+theorem C01_room_mutation_admins {mem : Option Room} {caller : Key} {m : MutSpec} {room' : Room}
+    (hadm : m.admins ≠ []) (h : validate mem caller m = .ok room') : room'.isAdmin caller m.date = true := by
+  unfold validate at h
+  simp only at h
+  split at h
+  · cases h
+  · split at h
+    · cases h
+    · split at h
+      · cases h
+      · rename_i room2 need hgs
+        -- the flag starts `true` (an admin entry is added) and only grows
+        have hneed : need = true := by
+          have hstart : (!m.admins.isEmpty) = true := by
+            cases hm : m.admins with
+            | nil => exact absurd hm hadm
+            | cons _ _ => rfl
+          rw [hstart] at hgs
+          exact validateGroups_need_true hgs
+        split at h
+        · cases h
+        · rename_i hc
+          cases h
+          rw [hneed] at hc
+          simpa using hc
+
+/-! ### non-vacuity: a concrete instance with rooms, members of every kind and rows -/
+
+/-- room 0: admin 1; group 0: all-rows right on entity 1 for member 2; group 1: own-rows right for member 3.
+    room 1: admin 1; group 0: all-rows right on everything for member 3 -/
+def room0 : Room :=
+  { id := 0, mdate := 1, admins := [⟨1, 1, true⟩],
+    auths := [{ id := 0, mdate := 1, users := [⟨2, 1, true⟩], rights := [Right.new 1 1 true true], userAdmins := [] },
+              { id := 1, mdate := 1, users := [⟨3, 1, true⟩], rights := [Right.new 1 0 true false], userAdmins := [] }] }
+def room1 : Room :=
+  { id := 1, mdate := 1, admins := [⟨1, 1, true⟩],
+    auths := [{ id := 0, mdate := 1, users := [⟨3, 1, true⟩], rights := [Right.new 1 0 true true], userAdmins := [] }] }
+def rooms01 : List Room := [room0, room1]
+
+/-- two rows of member 2 in room 0, row 1 referencing row 0 -/
+def db0 : Db :=
+  { rows := [⟨0, 1, some 0, 2, 2, 2, 1⟩, ⟨1, 1, some 0, 2, 2, 3, 2⟩],
+    edges := [⟨1, 0, 0, 2, 3⟩], nodeTombs := [], edgeTombs := [] }
+
+-- an authorised nested update: member 2 (all-rows) rewrites its row 0 under its unchanged row 1
+example : (mutate Defects.none rooms01 db0 2 4
+    { handle := 1, isNew := false, entity := 1, room := none, val := none,
+      field := .arr 0 [{ handle := 0, isNew := false, entity := 1, room := none, val := some 7 }] }).toBool = true := by
+  decide
+
+-- an authorised move: member 3 creates a row in room 0 (own-rows) and moves it to room 1
+example : (mutate Defects.none rooms01
+    { db0 with rows := db0.rows ++ [⟨5, 1, some 0, 3, 3, 3, 9⟩] } 3 4
+    { handle := 5, isNew := false, entity := 1, room := some 1, val := some 7, field := .none }).toBool = true := by decide
+
+/-! ### the code as it is (`Defects.asImplemented`): the full statement is false -/
+
+/-- the nested mutation `Person { id: 1, parents: [{ id: 0, name: 66 }] }` by the outsider 5 -/
+def nestedByOutsider : Mut :=
+  { handle := 1, isNew := false, entity := 1, room := none, val := none,
+    field := .arr 0 [{ handle := 0, isNew := false, entity := 1, room := none, val := some 66 }] }
+
+def authorOf (r : Except MErr Db) (id : Nat) : Option Key :=
+  match r with
+  | .ok db => (db.rows.find? (·.id = id)).map (·.author)
+  | .error _ => none
+
+/-- **C01_breaks_subNodesSkipped (#1).** Key 5 has no right in room 0 (`can … = false`); its direct update of
+    row 0 is refused; nested under the unchanged row 1 the same update is accepted and row 0 is now signed
+    by key 5. With the switch off it is refused. -/
+theorem C01_breaks_subNodesSkipped :
+    room0.can 5 1 4 .mutateAll = false ∧ room0.can 5 1 4 .mutateSelf = false ∧
+    (mutate Defects.asImplemented rooms01 db0 5 4
+      { handle := 0, isNew := false, entity := 1, room := none, val := some 66, field := .none }).toBool = false ∧
+    authorOf (mutate Defects.asImplemented rooms01 db0 5 4 nestedByOutsider) 0 = some 5 ∧
+    (mutate { Defects.asImplemented with subNodesSkipped := false } rooms01 db0 5 4 nestedByOutsider).toBool = false := by
+  decide
+
+/-- **C01_breaks_oldRoomLookup (#2).** Member 3 has only the own-rows right in room 0 and the all-rows right
+    in room 1: it cannot update the foreign row 0 in place, but it can move it to room 1 (the departing room
+    is looked up with the destination id). With the switch off the move is refused. -/
+theorem C01_breaks_oldRoomLookup :
+    room0.can 3 1 4 .mutateAll = false ∧
+    (mutate Defects.asImplemented rooms01 db0 3 4
+      { handle := 0, isNew := false, entity := 1, room := none, val := some 5, field := .none }).toBool = false ∧
+    (mutate Defects.asImplemented rooms01 db0 3 4
+      { handle := 0, isNew := false, entity := 1, room := some 1, val := some 5, field := .none }).toBool = true ∧
+    (mutate { Defects.asImplemented with oldRoomLookup := false } rooms01 db0 3 4
+      { handle := 0, isNew := false, entity := 1, room := some 1, val := some 5, field := .none }).toBool = false := by
+  decide
+
+/-- **C01_breaks_refDeletionResign (#3).** The outsider 5 "deletes" a reference that does not exist: row 0 is
+    re-dated and re-signed by key 5. With the switch off nothing changes. -/
+theorem C01_breaks_refDeletionResign :
+    authorOf (deleteRef Defects.asImplemented rooms01 db0 5 4 0 1 0 1) 0 = some 5 ∧
+    (match deleteRef { Defects.asImplemented with refDeletionResign := false } rooms01 db0 5 4 0 1 0 1 with
+      | .ok db' => decide (db' = db0) | .error _ => false) = true := by
+  decide
+
+/-- row 7 without room, referenced by row 1 of room 0 -/
+def db1 : Db :=
+  { rows := db0.rows ++ [⟨7, 1, none, 2, 3, 3, 4⟩], edges := db0.edges ++ [⟨1, 0, 7, 2, 3⟩],
+    nodeTombs := [], edgeTombs := [] }
+
+/-- **C01_breaks_incomingRefsUnchecked.** The outsider 5 deletes the room-less row 7: the reference stored at
+    row 1 of room 0 — which key 5 may not edit — disappears with it. With the switch off the deletion is refused. -/
+theorem C01_breaks_incomingRefsUnchecked :
+    mayTouch rooms01 db1 5 4 1 = false ∧
+    (match deleteNode Defects.asImplemented rooms01 db1 5 4 7 1 with
+      | .ok db' => db'.edges.any (fun e => e.src = 1 && e.dest = 7) | .error _ => true) = false ∧
+    (deleteNode { Defects.asImplemented with incomingRefsUnchecked := false } rooms01 db1 5 4 7 1).toBool = false := by
+  decide
+
+/-- **C01_breaks_sysRefDeletionUnguarded (#32).** Any key — here 5, unknown to the room — removes an admin
+    reference of a room (entries 10 and 11, room row signed by admin 1) and becomes the author of the room
+    row: an authorisation row changes outside a room mutation. With the switch off the deletion is refused.
+    (Replayed on the real code: corpus/C01/sys-ref-deletion-unguarded.ops.) -/
+theorem C01_breaks_sysRefDeletionUnguarded :
+    deleteRoomAdminRef Defects.asImplemented 1 [10, 11] 5 10 = .ok (5, [11]) ∧
+    deleteRoomAdminRef { Defects.asImplemented with sysRefDeletionUnguarded := false } 1 [10, 11] 5 10
+      = .error .deleteNotAllowed := ⟨rfl, rfl⟩
+
+/-! ### the code as it is, under an explicit guard -/
+
+/-- the mutation has none of the shapes the code mishandles: its own row changes or no sub-entity row does,
+    and no row changes room -/
+def Guard (top : Change) (subs : List Change) : Prop :=
+  (top.node ≠ none ∨ ∀ c ∈ subs, c.node = none) ∧ ∀ c ∈ top :: subs, NoMove c
+
+/-- **C01_partial (the code as it is).** For a mutation whose plan satisfies `Guard` — the entity's own row
+    changes or none of its sub-entities' rows does (excludes #1), and no row changes room (excludes #2) — the
+    code as it is writes only rows whose change passed the right check. Missing with respect to the full
+    statement: the nested sub-entity under an unchanged parent, room moves, reference deletions (#3),
+    deletions of referenced rows, and the reference deletion on `sys.Room` (#32), all shown false above or
+    by replay (`corpus/C01`). -/
+theorem C01_partial {rooms : List Room} {db db' : Db} {caller : Key} {now : Int} {m : Mut}
+    {top : Change} {subs : List Change} (hp : plan db now m = .ok (top, subs)) (hg : Guard top subs)
+    (h : mutate Defects.asImplemented rooms db caller now m = .ok db') :
+    ∀ r ∈ db'.rows, r ∉ db.rows →
+      ∃ c, Authorised rooms caller now c ∧ c.entity = r.entity ∧ c.roomId = r.room ∧ r.author = caller := by
+  unfold mutate at h
+  rw [hp] at h
+  simp only at h
+  split at h
+  · cases h
+  · rename_i l hv
+    cases h
+    intro r hr hnot
+    obtain ⟨hmap, hauth⟩ := validateAll_authorised (Or.inr hg.1) (Or.inr hg.2) hv
+    rcases applyAll_rows hr with h1 | ⟨ct, hct, n, hn, rfl⟩
+    · exact absurd h1 hnot
+    · have hcin : ct.1 ∈ top :: subs := by rw [← hmap]; exact List.mem_map.mpr ⟨ct, hct, rfl⟩
+      have hpl := plan_planned hp ct.1 hcin
+      have hne : ct.1.node ≠ none := by rw [hn]; exact fun e => by cases e
+      exact ⟨ct.1, hauth ct hct hne, (hpl.node n hn).1.symm, (hpl.node n hn).2.symm, rfl⟩
+
+-- the guard is satisfiable by a non-trivial mutation of the code as it is: member 2 updates its row 1 and,
+-- nested under it, its row 0
+example : ∃ top subs,
+    plan db0 4 { handle := 1, isNew := false, entity := 1, room := none, val := some 8,
+                 field := .arr 0 [{ handle := 0, isNew := false, entity := 1, room := none, val := some 7 }] }
+      = .ok (top, subs) ∧ top.node ≠ none ∧ subs.length = 1 := by
+  refine ⟨_, _, rfl, by decide, by decide⟩
 
 end Discret.LocalWrite
